@@ -17,7 +17,9 @@ META = {
                    'evaluated on them in the kernel and are proved sound for ANY tables (13 theorems, axiom-free).  For every value, "allowed by the '
                    'schema entry" is proved equal to "inside the domain the reader enforces" (floats; ints with a published option list or a '
                    'one-interval AllowableRange; soundness only for gapped ranges without option list), and through the C07 reader model to '
-                   'accepted-and-used / rejected-by-name.  The pinned tree refutes the names clause (30 accepted names not published: '
+                   'accepted-and-used / rejected-by-name; for the array parameters read through ReadParameter (Gradients, Thicknesses) the list '
+                   'reader is modelled (it warns and keeps the list instead of raising) and "first element schema-allowed <-> supplied list stored" '
+                   'is proved for every value (later elements are never checked: C19_list_rest_refuted, recorded finding).  The pinned tree refutes the names clause (30 accepted names not published: '
                    'C19_names_refuted) and one bound (Maximum Drawdown: C19_bound_refuted); both are recorded findings.'),
     'level_note': ('Trusted: Coq kernel + vm_compute; the generators (unverified Python) that dump declarations, run the schema generator, read the '
                    'committed files and hash entries (SHA-256 prefix, for committed = generated); the reader model is tied to ReadParameter by C07 '
@@ -25,7 +27,7 @@ META = {
                    'exactly.  The .rst reference pages and the parameters that specialised modules redefine are not claimed.'),
     'technique': 'Coq proof about an executable Gallina model + kernel-evaluated correspondence with the implementation',
     'rule': ('finite and exhaustive: every row of the regenerated parameter table x every entry of the generated and committed request schemas '
-             '(GEOPHIRES-X and HIP-RA-X) x every field category of the result schema; enforcement cases = (schema entry, accepting class, value at / '
+             '(GEOPHIRES-X and HIP-RA-X) x every field category of the result schema; enforcement cases = (schema entry, accepting class, value (lists: first element, and one out-of-bounds later element; reader and Model.read_parameters level) at / '
              'next to / inside the schema bounds or option list) run through the real ReadParameter; result fields additionally extracted by the '
              'real client from a synthetic report line; non-trivial = distinct (check, name, field or class, value)'),
     'trusted_base': ['Coq 8.16.1 kernel + vm_compute (no native_compute)',
